@@ -879,7 +879,7 @@ def run(ck: Checker):
     ck.rule('C02.ACYC', 'operand re-pointing sites cannot close a cycle or end in check_circuit_has_no_cycles')
     ck.rule('C02.HIST', 'seeded histories of public mutations (all mutators of the statement incl. composition, block creation/removal, subcircuit replacement, bench conversion, copying; legal and illegal arguments) folded on instances of the repository\'s Circuit class: after every call that returns the circuit is well formed (operands/outputs exist, users index = inverse operand multiset, inputs = INPUT gates once each, blocks name gates, acyclic); rename / replace_subcircuit / into_bench keep the truth table; a copy equals its original and shares no mutable state')
     from .. import history_fold
-    history_fold.fold_histories(ck, 'C02.HIST')
+    history_fold.fold_histories(ck, 'C02.HIST', observers=('top_sort',))
     ck.floor('C02.HIST', 12)
     # directed replace_subcircuit situations that seeded histories rarely produce (a replacement that would close a cycle, an
     # inner gate read from outside, overlapping mappings): refused, or the circuit stays well formed (shared with C19)
